@@ -330,6 +330,13 @@ pub fn record(out_path: &str, count: u64) {
         ("msgpack-map", vec![0x81, 0xa1, b'a', 0x01]),
         ("msgpack-two-docs", vec![0x91, 0x01, 0x92, 0x02, 0x03]),
         ("toml-table", b"[t]\nk = \"v\"\n".to_vec()),
+        // table headers alone: YAML flow sequences as well as TOML - the first trial that accepts them wins, from a slice and from a reader alike
+        ("toml-header-only", b"[package]\n".to_vec()),
+        ("toml-array-header-only", b"[[bin]]\n".to_vec()),
+        ("toml-header-comment", b"[a]\n# c\n".to_vec()),
+        // a UTF-8 byte order mark in front of block collections whose later lines start at column 0
+        ("yaml-bom-block-mapping", b"\xef\xbb\xbfname: xt\nkind: tool\n".to_vec()),
+        ("yaml-bom-block-sequence", b"\xef\xbb\xbf- a\n- b: 1\n  c: 2\n".to_vec()),
         ("text", b"just some text\n".to_vec()),
         ("nul", vec![0]),
         // witness of the recorded finding yaml_positions_only (KNOWN_FINDINGS.txt)
